@@ -384,8 +384,8 @@ void LabeledUndirectedGraph<EdgeLabel>::addEdge(
             Directed::adjacencyList[vertex1].push_back(vertex2);
         Directed::adjacencyList[vertex2].push_back(vertex1);
 
-        setLabel(vertex1, vertex2, label);
         ++Directed::edgeNumber;
+        setLabel(vertex1, vertex2, label);
     }
 }
 
